@@ -98,6 +98,7 @@ type RPacket struct {
 	Kind        uint8
 	Ctl         bool
 	Data        []byte
+	EndOff      int // number of bytes written on this wire up to and including the packet's last frame
 }
 
 func (p RPacket) String() string {
@@ -137,6 +138,7 @@ type WireMonitor struct {
 	Abandoned      int
 	KeepRaw        bool
 	Raw            []byte
+	parsed         int
 }
 
 // Trailing returns the number of bytes of an incomplete frame at the end of
@@ -176,6 +178,7 @@ func (m *WireMonitor) Write(p []byte) {
 
 func (m *WireMonitor) frame(fr RFrame) {
 	m.Frames++
+	m.parsed += fr.Size
 	if m.started {
 		switch {
 		case fr.Stream < m.lastS:
@@ -211,6 +214,7 @@ func (m *WireMonitor) frame(fr RFrame) {
 	if fr.Done {
 		m.doneID = true
 		pk := *m.cur
+		pk.EndOff = m.parsed
 		m.Packets = append(m.Packets, pk)
 		if m.OnPacket != nil {
 			m.OnPacket(pk)
